@@ -38,15 +38,16 @@ CANARIES = {
 
 ANCHOR = {"alpha": "7/10", "po0": "1/5", "pn0": "4/5", "po1": "1/3", "pn1": "2/3", "po2": "1/4", "pn2": "3/4",
           "x0_0_0": "3/10", "x0_0_1": "2", "x1_0_0": "3/2", "x1_0_1": "1/5", "x2_0_0": "1/2", "x2_0_1": "5/4",
-          "x0_0_2": "7/5", "x1_0_2": "2/3", "x2_0_2": "9/10"}
+          "x0_0_2": "7/5", "x1_0_2": "2/3", "x2_0_2": "9/10",
+          "x0_1_0": "6/5", "x0_1_1": "1/3", "x1_1_0": "1/4", "x1_1_1": "5/3", "x2_1_0": "3/4", "x2_1_1": "2"}
 
 
 ANCHOR2 = {"alpha": "9/4", "po0": "1/20", "pn0": "19/20", "po1": "2/5", "pn1": "3/5", "x0_0_0": "5/2", "x0_0_1": "1/7", "x1_0_0": "2/9", "x1_0_1": "4"}
 
 
-def slice_fixed(symbolic_prefixes, n, G, outl):
+def slice_fixed(symbolic_prefixes, n, G, outl, D=1):
     """Everything except the variables whose name starts with one of `symbolic_prefixes` is held at ANCHOR."""
-    names = ["alpha"] + [f"x{i}_0_{g}" for i in range(n) for g in range(G)]
+    names = ["alpha"] + [f"x{i}_{d}_{g}" for i in range(n) for d in range(D) for g in range(G)]
     if outl:
         names += [f"po{i}" for i in range(n)] + [f"pn{i}" for i in range(n)]
     return {nm: ANCHOR[nm] for nm in names if not any(nm.startswith(p) for p in symbolic_prefixes)}
@@ -78,6 +79,11 @@ def jobs(tier, seed):
                     out[-1]["name"] += f"-slice:{sname}"
             add(kern, wiring, True, "0", 2, 1, cost=1)
             add(kern, wiring, True, "1", 2, 1, cost=1)
+    # two samples: the first sample's data and alpha symbolic, the second sample at the anchor
+    for kern in (("semi",) if tier == "quick" else tuple(PROPOSALS)):
+        for wiring in ("library", "run"):
+            add(kern, wiring, False, "1", 2, 2, cost=8, D=2, fixed={k: v for k, v in slice_fixed(("alpha", "x0_0", "x1_0"), 2, 2, False, D=2).items()}, slice="sample0+alpha")
+            out[-1]["name"] += "-D2-slice:sample0+alpha"
     # n = 3 whole-tree updates cost tens of minutes per configuration in this engine (thousands of paths per start state and
     # row terms too large for z3 even on slices: probed, one job > 50 min) and are outside both tiers; the thorough tier adds
     # three particles, a finer grid, the threshold 1/2 and a second anchor for the outlier slices at n = 2
@@ -109,6 +115,7 @@ def setup(job, vals=None):
     from phyclone.smc.utils import RootPermutationDistribution
     import phyclone.run as prun
     n, G, N, outl = job["n"], job["G"], job["N"], job["outliers"]
+    D = job.get("D") or 1
     job = dict(job)
     job["fixed"] = job.get("fixed") or {}
     sym = vals is None
@@ -118,7 +125,7 @@ def setup(job, vals=None):
         fixed = job.get("fixed", {})
         alpha = Lin(V(Fraction(fixed["alpha"]))) if "alpha" in fixed else Lin(V.var("alpha"))
         for i in range(n):
-            dp = sym_dp(i, 1, G, fixed=fixed)
+            dp = sym_dp(i, D, G, fixed=fixed)
             if outl and job.get("p_one"):
                 # boundary of the accepted range: outlier probability exactly 1 -> log p = 0 (the code's "off" sentinel), log(1-p) = -inf
                 dp.outlier_prob, dp.outlier_prob_not = Log(V(1)), Log(V(0))
@@ -135,7 +142,7 @@ def setup(job, vals=None):
         alpha = float(Fraction(vals.get("alpha", 1)))
         thr = float(thr)
         for i in range(n):
-            dp = float_dp(i, 1, G, vals)
+            dp = float_dp(i, D, G, vals)
             if outl and job.get("p_one"):
                 dp.outlier_prob, dp.outlier_prob_not = 0.0, -math.inf
             elif outl:
@@ -152,7 +159,7 @@ def setup(job, vals=None):
         kernel = cls(td, rng, outlier_proposal_prob=(0.1 if outl else 0), perm_dist=RootPermutationDistribution())
         sampler = ParticleGibbsTreeSampler(kernel, rng, num_particles=N, resample_threshold=thr)
     forests = all_forests(n, outliers=outl)
-    states = [(f.key(), f.to_tree(dps, (1, G))) for f in forests]
+    states = [(f.key(), f.to_tree(dps, (D, G))) for f in forests]
     return dict(dps=dps, td=td, sampler=sampler, states=states, forests=forests)
 
 
@@ -173,7 +180,7 @@ def work(job):
     fk = f"C01:{job['wiring']}:{job['kernel']}:outliers={int(job['outliers'])}"
 
     def cex(kind, model=None, **kw):
-        c = {"kind": kind, "finding_key": fk, "job": {k: job.get(k) for k in ("kernel", "wiring", "outliers", "thr", "N", "n", "G", "fixed")}}
+        c = {"kind": kind, "finding_key": fk, "job": {k: job.get(k) for k in ("kernel", "wiring", "outliers", "thr", "N", "n", "G", "fixed", "D", "p_one")}}
         c["values"] = model_values(model) if model is not None else {}
         c.update(kw)
         res["cex"].append(c)
